@@ -15,9 +15,13 @@ translation units that mix supported and unsupported constructs at every positio
   (v)   corpus/C06.json (witnesses of repaired defects and of earlier findings), run first.
 For each unit x {Analysis.run, LoopAnalysis.run} x {strict} x {fin}: a FRESH parse, run under a 20 s limit,
 required: no exception, json.dumps(result.to_dict()) succeeds, and in non-strict mode every FuncDef with a
-body is a key of result.relations (loop mode: result.loops).  Failures are shrunk on the generic tree
-(tools/syntax_common.shrink_source) and reported with signature
-   ["C06", exception type, innermost pymwp function, construct classes of the shrunk unit].
+body is a key of result.relations (loop mode: result.loops).  A run over the limit inside the 16-process pool is
+repeated alone with 60 s; only then it counts as a hang.  Failures are shrunk (generic tree:
+tools/syntax_common.shrink_source; text level for units whose tree pycparser built against its own schema) and
+reported with signature
+   ["C06", exception type | "Timeout" | "json:<type>" | "missing-function",
+    innermost pymwp function (timeout: the long-running pymwp function that was interrupted),
+    class of the AST node that function was handling | "list-in-single-slot" | None].
 CORRESPONDENCE: units inside the typed fragment go through e2e.coq_compare (model RErr <-> real raise are
 codes 1/2 there, next to index / variables / matrix / valid vectors).
 """
@@ -36,7 +40,7 @@ ID = "C06"
 NOT_CLAIMED = "in progress"
 LEVEL = "proof"
 MODEL_TARGETS = ["theories/Analysis.vo"]
-TRANSLATORS = ["semiring", "rules", "syntax"]
+TRANSLATORS = ["semiring", "rules"]
 LEVEL_TEXT = ("Theorems in coq/props/C06.v about the Err-instrumented executable model Analysis.v (typed statement grammar): for statements "
               "whose binary operators are in BIN_OPS and whose names are non-empty, started from a reachable delta graph, compute / analyse "
               "return a result or one of the two artificial fuel errors -- no IndexError (replace_column), AssertionError (create_vector), "
@@ -90,7 +94,7 @@ def body_funcs(ast):
     return [e.decl.name for e in ast.ext if isinstance(e, c_ast.FuncDef) and e.body is not None]
 
 
-HEAVY = ("build_choices", "fixpoint", "fusion", "simplify", "generate", "choice_reduce", "homogenisation")
+HEAVY = ("build_choices", "simplify", "fixpoint", "fusion", "remove_node", "choice_reduce", "generate", "eval", "var_eval")   # by priority
 
 
 def crash_site(e):
@@ -102,14 +106,12 @@ def crash_site(e):
         fr = tb.tb_frame
         if os.sep + "pymwp" + os.sep in fr.f_code.co_filename:
             fn = os.path.basename(fr.f_code.co_filename) + ":" + fr.f_code.co_name
-            if heavy is None and fr.f_code.co_name in HEAVY:
+            nm = fr.f_code.co_name
+            if nm in HEAVY and (heavy is None or HEAVY.index(nm) < HEAVY.index(heavy.split(":")[1])):
                 heavy = fn
-            if "node" in fr.f_locals:
-                n = fr.f_locals["node"]
-                if isinstance(n, (list, tuple)):
-                    node_cls = "list-in-single-slot"
-                elif n is not None and type(n).__module__.startswith("pycparser"):
-                    node_cls = type(n).__name__
+            n = fr.f_locals.get("node")
+            if n is not None and type(n).__module__.startswith("pycparser"):
+                node_cls = type(n).__name__
         tb = tb.tb_next
     if isinstance(e, AttributeError) and "'list' object has no attribute" in str(e):
         node_cls = "list-in-single-slot"      # pycparser put a list where its schema has one child (root cause, whatever the path)
@@ -742,8 +744,8 @@ def run(ctx):
         for fin, strict in ((False, False), (True, False)):
             r = e2e.run_real(src, fin, strict)
             if r["exc"]:
-                if r["exc"][0] != "ParseError" and not any(x["input"]["src"] == src for x in failing):
-                    failing.append({"what": f"raise: Analysis.run raised {r['exc']} on a typed-fragment program", "sig": ["C06", r["exc"][0], r["exc"][1], "typed"],
+                if r["exc"][0] != "ParseError" and not any(x["sig"][1:3] == r["exc"][:2] for x in failing):
+                    failing.append({"what": f"raise: Analysis.run raised {r['exc']} on a typed-fragment program", "sig": ["C06", r["exc"][0], r["exc"][1], None],
                                     "input": {"src": src, "opts": {"mode": "func", "fin": fin, "strict": strict}}, "expected": "a result", "observed": r["exc"]})
                 continue
             for name, d in r["funcs"].items():
